@@ -45,6 +45,12 @@ pub fn load_incircuit(
             .map_err(|e| e.into())
             .map(|xs| xs.into_iter().map(CircuitValue::Bool).collect()),
 
+        // `chunks(0)` panics; a value of type `Bytes(0)` is the empty byte string.
+        IrType::Bytes(0) => {
+            convert_values::<Vec<u8>>(values)?;
+            Ok(values.iter().map(|_| CircuitValue::Bytes(vec![])).collect())
+        }
+
         IrType::Bytes(n) => {
             let concatenated: Vec<Value<u8>> = convert_values::<Vec<u8>>(values)?
                 .into_iter()
